@@ -374,6 +374,12 @@ def successors(nb, full=True):
         m = dict(nb)
         m['metadata'] = nm
         emit('nbmeta:%s' % lab, _tags(cats=('metadata',), kind='metadata'), m)
+    if not with_ids and n >= 1:
+        # what nbformat's upgrade does when a pre-4.5 notebook is opened and saved by a current Jupyter: minor 5, every cell gets an id
+        up = dict(nb)
+        up['nbformat_minor'] = 5
+        up['cells'] = [dict(c, id='u%d' % i) for i, c in enumerate(cells)]
+        emit('upgrade45', _tags(kind='minor'), up)
     if not with_ids:
         for m2 in range(0, 5):
             if m2 != minor and abs(m2 - minor) <= 2:
@@ -550,6 +556,22 @@ def cell_runs(seed, pos, maxlen, names=RUN_CELLS):
     return out
 
 
+RUN_LINES = ("\n", "L = 1\n", "R = 2\n", "shared = 0\n")
+
+
+def line_runs(seed, cell, pos, maxlen, lines=RUN_LINES):
+    """Runs of lines (repetition allowed) inserted before line `pos` of one cell's source."""
+    import itertools
+    out = []
+    L = seed['cells'][cell]['source'].splitlines(True)
+    for n in range(1, maxlen + 1):
+        for run in itertools.product(range(len(lines)), repeat=n):
+            nb = cp(seed)
+            nb['cells'][cell]['source'] = ''.join(L[:pos] + [lines[i] for i in run] + L[pos:])
+            out.append(('linerun@%d.%d:%s' % (cell, pos, ''.join(str(i) for i in run)), _tags(cell=cell, cats=('sources',), kind='source'), nb))
+    return out
+
+
 def output_runs(seed, cell, maxlen, names=RUN_OUTPUTS):
     import itertools
     out = []
@@ -573,6 +595,9 @@ FOCUS = {
                'src@0:terminate'),
     'meta': ('cellmeta@2:tags+extra', 'cellmeta@2:tags+other', 'cellmeta@2:collapsed-flip', 'cellmeta@2:custom=a1', 'cellmeta@2:custom=a2', 'cellmeta@2:level-2',
              'nbmeta:kspec-name', 'nbmeta:kspec-name:b', 'nbmeta:tags=new', 'nbmeta:x=lists'),
+    'cellmix0': ('ec@0:7', 'out@0:oec1', 'src@0:tweak1', 'src@0:repl2:a', 'cell-delete@0', 'rerun@0', 'cellmeta@0:custom=a1', 'cell-retype@0:raw', 'id@0:renamed'),
+    'cellmix2': ('cellmeta@2:collapsed-flip', 'src@2:tweak0', 'src@2:repl0:a', 'ec@2:7', 'cell-delete@2', 'cellmeta@2:tags+extra', 'out@2:append:Ostream',
+                 'cell-move:1>2', 'cell-insert:C1@2'),
     'prevmeta': ('nbmeta:conflicts-unset', 'nbmeta:conflicts-emptied', 'nbmeta:kspec-name', 'nbmeta:kspec-name:b', 'nbmeta:tags=new', 'nbmeta:tags=alt',
                  'cellmeta@0:conflicts-unset', 'cellmeta@0:conflicts-emptied', 'cellmeta@0:tags=new', 'cellmeta@0:tags=alt', 'cellmeta@0:custom=a1', 'cellmeta@0:custom=a2'),
     'attachments': ('att@1:add:b1', 'att@1:add:b2', 'att@1:replace:2', 'att@1:replace:3', 'att@1:rename', 'att@1:add-mime', 'src@1:repl1:a', 'src@1:repl1:b'),
